@@ -75,6 +75,52 @@ Theorem C31_crash_state_is_next_start :
 Proof. exact crash_before_rename_is_next_start. Qed.
 Print Assumptions C31_crash_state_is_next_start.
 
+(* Chains of saves.  [good st cur]: nothing pending, nothing open, the session file holds [cur]
+   in a synced inode (or does not exist), whatever else the directory contains.  After ANY
+   number of completed saves (each with its directory sync, each with a temporary name that
+   did not exist at that time -- os.CreateTemp, O_EXCL) a further save interrupted anywhere,
+   under either crash model, shows the content of the LAST completed save or the new one. *)
+Theorem C31_atomic_chain :
+  forall (saves : list (name * list bytes)) (st : fs) (cur : option bytes) (stn : fs)
+         (t : name) (ch : list bytes) (dirsync : bool) (m : crash_model) (c : option (option bytes)),
+    good st cur -> fresh_names st saves -> run_saves st saves = Some stn ->
+    aget t (ddir stn) = None -> t <> tgt ->
+    In c (crash_states m tgt stn (store_ops_named t ch dirsync)) ->
+    c = Some (last_content cur saves) \/ c = Some (Some (concat ch)).
+Proof. exact store_atomic_chain. Qed.
+Print Assumptions C31_atomic_chain.
+
+Theorem C31_chain_runs_and_stays_good :
+  forall saves st cur, good st cur -> fresh_names st saves ->
+    exists stn, run_saves st saves = Some stn /\ good stn (last_content cur saves).
+Proof. exact chain_good. Qed.
+Print Assumptions C31_chain_runs_and_stays_good.
+
+Theorem C31_initial_states_are_good : forall old, good (init_fs old) old.
+Proof. exact good_init_fs. Qed.
+Print Assumptions C31_initial_states_are_good.
+
+(* The completed saves of the chain need their directory sync.  C31_atomic above also covers
+   dirsync = false for the INTERRUPTED save (from a durable start); but a save that COMPLETED
+   without the directory sync (the sync is best effort: a platform where a directory cannot
+   be opened or synced) is not durable, and an interrupted later save can then surface the
+   session before the previous one under power loss.  On Linux strace shows the directory
+   sync on every run (the correspondence check compares the observed sequence). *)
+Theorem C31_refuted_chain_without_dirsync :
+  exists st1, run (init_fs (Some [9%Z])) (store_ops [[1%Z]] false) = Some st1 /\
+              In (Some (Some [9%Z])) (crash_states Power tgt st1 (store_ops_named 1 [[2%Z]] false)).
+Proof. exact chain_without_dirsync_surfaces_older. Qed.
+Print Assumptions C31_refuted_chain_without_dirsync.
+
+(* Failure branches of writeFileAtomic (write / sync / close / rename error: Close, Remove of
+   the temporary file; no rename happened): every crash state still shows the previous content. *)
+Theorem C31_failure_branches_keep_previous :
+  forall (st0 : fs) (cur : option bytes) (t : name),
+    good st0 cur -> aget t (ddir st0) = None -> t <> tgt ->
+    forall chunks synced m c, In c (crash_states m tgt st0 (fail_ops t chunks synced)) -> c = Some cur.
+Proof. exact fail_atomic_good. Qed.
+Print Assumptions C31_failure_branches_keep_previous.
+
 (* The sequence before the repair, os.WriteFile = open(O_TRUNC); write; close, is not
    atomic (empty and torn files, already under a process crash): the finding fixed in
    /repo; the witness is corpus/C31/torn-write.json. *)
@@ -92,6 +138,13 @@ Theorem C31_checked_states_covered :
   forall m n st0 os c, In c (checked_states m n st0 os) -> In c (crash_states m n st0 os).
 Proof. exact checked_states_incl. Qed.
 Print Assumptions C31_checked_states_covered.
+
+(* non-vacuity of the chain hypotheses: two completed saves with fresh names from a good state *)
+Example C31_chain_nonvacuous :
+  good (init_fs (Some [1]%Z)) (Some [1]%Z) /\
+  fresh_names (init_fs (Some [1]%Z)) [(1, [[2]%Z]); (2, [[3]%Z; [4]%Z])] /\
+  last_content (Some [1]%Z) [(1, [[2]%Z]); (2, [[3]%Z; [4]%Z])] = Some [3; 4]%Z.
+Proof. split; [apply good_init_fs|]. split; [|reflexivity]. vm_compute. repeat split; discriminate. Qed.
 
 (* non-vacuity: the crash sets are inhabited and contain both outcomes *)
 Example C31_both_outcomes_occur :
